@@ -367,9 +367,9 @@ def hang_signature(c):
 
 
 # --------------------------------------------------------------------------------------- generators
-def spec(n, stages, det=None, i="I", o="I", e="I", errto=0, shape="L", term="join", data=0, read="0", write=0, errwhen="late", sib=0):
-    return "n=%d stages=%s det=%s in=%s out=%s err=%s errto=%d errwhen=%s shape=%s term=%s data=%d read=%s write=%d sib=%d" % (
-        n, ",".join(stages), det or "0" * n, i, o, e, errto, errwhen, shape, term, data, read, write, sib)
+def spec(n, stages, det=None, i="I", o="I", e="I", errto=0, shape="L", term="join", data=0, read="0", write=0, errwhen="late", sib=0, pause=0):
+    return "n=%d stages=%s det=%s in=%s out=%s err=%s errto=%d errwhen=%s shape=%s term=%s data=%d read=%s write=%d sib=%d pause=%d" % (
+        n, ",".join(stages), det or "0" * n, i, o, e, errto, errwhen, shape, term, data, read, write, sib, pause)
 
 
 def shapes_for(n, rng):
@@ -474,6 +474,7 @@ def gen_c12(ctx):
         specs.append(spec(1, [beh], term="capture", read="all"))
         specs.append(spec(1, [beh], o="F", term="popen"))
         specs.append(spec(1, [beh], o="F", term="popen", det="1"))
+        specs.append(spec(1, [beh], o="F", term="popen", det="1", pause=60))   # dropped after the child has ended: still not reaped
     # an unrelated child started while the handle is alive (and outliving it) must not keep the pipe's other end open
     for rd in ["0", "10"]:
         specs.append(spec(1, ["Y"], term="stream_stdout", read=rd, sib=1))
@@ -508,6 +509,7 @@ def gen_c12(ctx):
         specs.append(spec(n, ["Y"] + ["C"] * (n - 2) + ["X5"], term="capture", read="all"))
         specs.append(spec(n, ["G10:0"] + ["C"] * (n - 1), o="F", term="popen"))
         specs.append(spec(n, ["G10:0"] + ["C"] * (n - 1), o="F", term="popen", det="1" * n))
+        specs.append(spec(n, ["G10:0"] + ["C"] * (n - 1), o="F", term="popen", det="1" * n, pause=60))
         specs.append(spec(n, ["Y"] + ["C"] * (n - 1), term="communicate", read="0"))
         specs.append(spec(n, ["G10:0"] + ["C"] * (n - 2) + ["nosuch"], term="join"))
     return specs
